@@ -117,6 +117,9 @@ func FuzzZoneParser(f *testing.F) {
 		if pbt.Known(kGenRequote) && textRequotesNewline(c.Files) {
 			return
 		}
+		if pbt.Known(kGenOpenQuote) && generateInOpenQuote(string(data)) {
+			return
+		}
 		_, viol := runParser(c.Files, c.Cfg, exerciseRecord)
 		if viol != nil {
 			writeFuzzViolation("fuzz-zone", c, viol)
